@@ -639,6 +639,34 @@ def run(chk):
     if not oke:
         chk.violation(r_so, "intersect-empty", "intersectWithEmptyHandling(other, curr) must return when `other` has no set, adopt `other` when `curr` has none, and intersect otherwise (found %s): a scalar sub-condition would wipe or fail to restrict the set of matching wells" % det_e, ie["file"], ie["l"])
 
+    # the set algebra itself: inputs are the two element vectors, the result is installed
+    for nm_, algo in (("makeIntersection", "set_intersection"), ("makeUnion", "set_union")):
+        mf = [f for f in fx.fns if f["file"].endswith("ActionResult.cpp") and f["n"] == nm_ and f.get("body") and "SortedVectorSet" in (f.get("cls") or f["q"]) and any(x["k"] == "Call" and ((x.get("fn") or "") + ((x.get("callee") or {}).get("n") or "")).endswith(algo) for x in walk(f["body"]))]
+        if len(mf) != 1:
+            raise core.AnalysisBroken("SortedVectorSet::%s not found (%d)" % (nm_, len(mf)))
+        mf = mf[0]
+        rp_ = mf["params"][0]["n"]
+        calls_ = [n for n in walk(mf["body"]) if n["k"] == "Call" and ((n.get("fn") or "") + ((n.get("callee") or {}).get("n") or "")).endswith(algo)]
+        oks = False
+        det_s = {}
+        if len(calls_) == 1 and len(calls_[0].get("a") or []) >= 5:
+            a_ = [show(x) for x in calls_[0]["a"][:5]]
+            outv = re.fullmatch(r"std::back_inserter\((\w+)\)", a_[4])
+            installs = [show(x) for x in stmt_list(mf["body"]) if x["k"] in ("MCall", "Call", "Bin", "OpCall") and x is not calls_[0] and re.match(r"\(?this\.elems_\b", show(x)) and outv and outv.group(1) in show(x)]
+            det_s = dict(inputs=a_[:4], output=a_[4], installs=installs)
+            oks = (a_[:4] == ["this.elems_.begin()", "this.elems_.end()", "%s.elems_.begin()" % rp_, "%s.elems_.end()" % rp_] and outv is not None
+                   and installs in (["this.elems_.swap(%s)" % outv.group(1)], ["(this.elems_ = std::move(%s))" % outv.group(1)], ["(this.elems_ = %s)" % outv.group(1)]))
+        chk.instance(r_so, nm_, sample=det_s)
+        if not oks:
+            chk.violation(r_so, nm_, "SortedVectorSet::%s must run std::%s over this set and the other set into a fresh vector and install that vector as the new content (found %s): otherwise AND / OR of two well conditions leaves the left set unchanged" % (nm_, algo, det_s), mf["file"], mf["l"])
+    for f in [f for f in fx.fns if f["file"].endswith("ActionResult.cpp") and f["n"] == "insert" and f.get("body") and "SortedVectorSet" in (f.get("cls") or f["q"])]:
+        t_ = [show(x) for x in stmt_list(f["body"])]
+        pn_ = [p_["n"] for p_ in f["params"]]
+        okI = len(t_) == 1 and t_[0].startswith("this.elems_.") and all(p_ in t_[0] for p_ in pn_) and re.match(r"this\.elems_\.(push_back|emplace_back|insert)\(", t_[0]) is not None
+        chk.instance(r_so, "insert/%d@%d" % (len(pn_), f["l"]), sample=dict(body=t_))
+        if not okI:
+            chk.violation(r_so, "insert/%d@%d" % (len(pn_), f["l"]), "SortedVectorSet::insert(%s) does %s; it appends its argument(s) to the element vector" % (", ".join(pn_), t_), f["file"], f["l"])
+
     # ---- C18.month: numeric month indices
     r_mo = chk.rule("C18.month", "a MNTH comparison with a numeric right-hand side compares with the NEAREST integer month (the documented rule: MNTH = 10.8 holds in November): the number goes through a round-to-nearest function, not through a truncating conversion", floor=1)
     month_ifs = [n for n in walk(ec["body"]) if n["k"] == "If" and isinstance(n.get("cond"), dict) and any(x.get("k") == "Ref" and x.get("n") == "time_month" for x in walk(n["cond"]))]
